@@ -374,3 +374,69 @@ func MapsAll[K comparable, V any](m map[K]V, site string) func(yield func(K, V) 
 		}
 	}
 }
+
+// Iter is what a rewritten range-over-map loop iterates with.  The keys present
+// when the loop starts are visited in the order the plan prescribes (Keys).  The
+// Go specification leaves open whether entries ADDED during the iteration are
+// produced: when the plan permutes this visit, a bit of the plan decides it (the
+// added keys follow the original ones); under the identity plan they are not
+// produced.  Entries removed before being reached are skipped, as the
+// specification requires.
+type Iter[K comparable, V any] struct {
+	m        map[K]V
+	pending  []K
+	produced map[K]bool // only when added entries are to be produced as well
+	k        K
+	v        V
+}
+
+func NewIter[K comparable, V any](m map[K]V, site string) *Iter[K, V] {
+	it := &Iter[K, V]{m: m}
+	permBefore := 0
+	if st := siteStat[site]; st != nil {
+		permBefore = st.Permuted
+	}
+	it.pending = Keys(m, site)
+	if st := siteStat[site]; st != nil && st.Permuted > permBefore {
+		if h := mix(hashStr(ThePlan.Map.Seed^0xadded, site) + uint64(st.Visits)); h&1 == 1 {
+			it.produced = make(map[K]bool, len(it.pending))
+			for _, k := range it.pending {
+				it.produced[k] = true
+			}
+		}
+	}
+	return it
+}
+
+func (it *Iter[K, V]) Next() bool {
+	for {
+		for len(it.pending) > 0 {
+			k := it.pending[0]
+			it.pending = it.pending[1:]
+			v, ok := it.m[k]
+			if !ok {
+				continue
+			}
+			it.k, it.v = k, v
+			return true
+		}
+		if it.produced == nil {
+			return false
+		}
+		var added []K
+		for k := range it.m {
+			if !it.produced[k] {
+				added = append(added, k)
+				it.produced[k] = true
+			}
+		}
+		if len(added) == 0 {
+			return false
+		}
+		sortKeys(added)
+		it.pending = added
+	}
+}
+
+func (it *Iter[K, V]) Key() K { return it.k }
+func (it *Iter[K, V]) Val() V { return it.v }
